@@ -14,7 +14,12 @@ MANIFEST = {
             "operand to its left is evaluated after the wrapped call (C03_q_hoisted_order_witness).  Outside the "
             "theorems: the rest of the compiler; correspondence per run as for C02 (structural + behavioural, one "
             "built program), documented-expansion oracle, plus separately compiled probes for `?` with 0/1/2 values "
-            "in statement/assignment position.",
+            "in statement/assignment position.  The model starts BELOW the parser (its input is the tree in which a "
+            "command-style `f? a` has already become ErrWrap{Call}): the surface syntax of the operators — "
+            "precedence of `x!`, `x?`, `x?:d` against unary/binary operators (the default is a unary expression), "
+            "command-style `f! a, b` / `f? a`, the CallExpr{Fun: ErrWrapExpr} rewrite in compileCallExpr — is covered "
+            "by no theorem, only by the harness family `errwrap_surface` (minimal-parenthesis printing by the "
+            "documented precedence, command style, regression inputs corpus/C03) judged by the documented-expansion oracle.",
     "note": "trusted: Lean kernel + propext/Classical.choice/Quot.sound; M4's Go semantics; qiniu/x/errors.NewFrame "
             "modelled as 'wraps; Unwrap gives inner; Code/Func recorded' (file/line not modelled); gogen's inline "
             "closure read as the block it emits (the closing goto/label is a jump to the next statement).",
@@ -26,7 +31,10 @@ MANIFEST = {
 RULE = ("generated scenarios: callees with 0/1/2 values + error that log each call, success and failure arguments; "
         "`?` inside functions with 6 result shapes (named/unnamed) in statement, define, assign, argument, "
         "argument-between-others, two-in-one-statement, nested, in-loop positions (+ tie-only: effectful left "
-        "operand); `!` in 7 positions with and without failure; `?:` with effectful/nested defaults; 6 compile "
+        "operand); `!` in 7 positions with and without failure; `?:` with effectful/nested defaults; surface syntax: 60% of "
+        "the scenarios are printed with minimal parentheses by the documented precedence (`x()?:d OP y`, `OP x()!`, "
+        "`-f()?`, negative/probe/nested defaults, errwrap inside index, slice literal and call arguments), `f! a` / "
+        "`f? a` in command style; 2 fixed regression scenarios (corpus/C03); 6 compile "
         "probes; non-trivial = distinct scenario whose trace has >= 3 events")
 
 
